@@ -249,10 +249,15 @@ class ArmArch(Architecture):
                 stack_size += arg_loc.size
                 if isinstance(arg, ArmRegister):
                     # Store register on stack:
+                    # The callee finds its first stack argument at fp + 8
+                    # (LR and FP are pushed in between), the caller stores
+                    # it at the bottom of its frame, so hence -8:
                     if self.has_option("thumb"):
                         yield thumb_instructions.Str1(arg, SP, arg_loc.offset)
                     else:
-                        yield arm_instructions.Str1(arg, SP, arg_loc.offset)
+                        yield arm_instructions.Str1(
+                            arg, SP, arg_loc.offset - 8
+                        )
                 elif isinstance(arg, StackLocation):
                     if self.has_option("thumb"):
                         raise NotImplementedError()
@@ -318,7 +323,11 @@ class ArmArch(Architecture):
             if isinstance(arg_loc, ArmRegister):
                 yield self.move(arg, arg_loc)
             elif isinstance(arg_loc, StackLocation):
-                pass
+                if isinstance(arg, ArmRegister) and not self.has_option(
+                    "thumb"
+                ):
+                    # A value passed on the stack: load it
+                    yield arm_instructions.Ldr1(arg, self.fp, arg_loc.offset)
             else:  # pragma: no cover
                 raise NotImplementedError("Parameters in memory not impl")
 
@@ -378,9 +387,9 @@ class ArmArch(Architecture):
                 if regs:
                     r = regs.pop(0)
                 else:
-                    arg_size = self.info.get_size(arg_ty)
-                    r = StackLocation(offset, arg_size)
-                    offset += arg_size
+                    # One word per value (stored with str, loaded with ldr)
+                    r = StackLocation(offset, 4)
+                    offset += 4
             locations.append(r)
         return locations
 
